@@ -52,12 +52,17 @@ def catches(handler_names, raised):
     return False
 
 
-def handler_names(hdl):
+def handler_names(hdl, mod=None):
     if hdl.type is None:
         return None
-    if isinstance(hdl.type, ast.Tuple):
-        return [txt(e).split('.')[-1] for e in hdl.type.elts]
-    return [txt(hdl.type).split('.')[-1]]
+    htype = hdl.type
+    # `except DAMAGED_FILE_ERRORS:` - a module-level tuple of classes
+    if isinstance(htype, ast.Name) and mod is not None and isinstance(
+            mod.toplevel.get(htype.id), ast.Tuple):
+        htype = mod.toplevel[htype.id]
+    if isinstance(htype, ast.Tuple):
+        return [txt(e).split('.')[-1] for e in htype.elts]
+    return [txt(htype).split('.')[-1]]
 
 
 def find_merge(program):
@@ -304,7 +309,7 @@ def check_exc_cover(ctx):
             hit = None
             for hfunc, trynode in protected_by:
                 for hdl in trynode.handlers:
-                    if catches(handler_names(hdl), cls_):
+                    if catches(handler_names(hdl, hfunc.module), cls_):
                         hit = (hfunc, hdl)
                         break
                 if hit:
@@ -340,12 +345,12 @@ def check_exc_cover(ctx):
                 continue
             guard = _protection(chain, func, other)
             for cls_ in DECODERS[key]:
-                covered = any(catches(handler_names(h), cls_) or (
+                covered = any(catches(handler_names(h, _f.module), cls_) or (
                     cls_ == 'error' and any(
                         txt(e) == f'{key[0]}.error' for e in (
                             h.type.elts if isinstance(h.type, ast.Tuple)
                             else [h.type]) if e is not None))
-                              for _, t in guard for h in t.handlers)
+                              for _f, t in guard for h in t.handlers)
                 ctx.decide(
                     'EXC-COVER', func,
                     f'{txt(other)[:40]} covers {key[0]}.{cls_}'
@@ -358,8 +363,8 @@ def check_exc_cover(ctx):
                     f'read_env: the next run aborts instead of treating '
                     f'the task as not done')
         # the open() of the file: OSError covered
-        hit = any(catches(handler_names(h), 'OSError')
-                  for _, t in protected_by for h in t.handlers)
+        hit = any(catches(handler_names(h, _f.module), 'OSError')
+                  for _f, t in protected_by for h in t.handlers)
         ctx.decide('EXC-COVER', func, f'{txt(call)} covers OSError (open)',
                    hit, at=where)
 
